@@ -180,7 +180,7 @@ fn group_patterns() -> Vec<&'static str> {
 }
 
 /// group forms x quantifiers x contexts (delegated as a whole, and forced into the VM by a look-ahead / back-reference)
-fn group_products() -> Vec<String> {
+pub fn group_products() -> Vec<String> {
     let groups = ["(a)", "(?<n>a)", "(a)|(b)", "((a)b)", "(?:(a)|(?<n>b))", "(a)(?<n>b)"];
     let quants = ["", "?", "*", "+", "{0}", "{0,0}", "{2}", "{0,1}", "{1,}", "*?", "{0}?"];
     let mut out = vec![];
